@@ -331,6 +331,7 @@ func runC02(r *engine.Run) {
 				c.Fail("C/fcnt-neighbour/decode-error", err.Error(), nil)
 				return
 			}
+			observe(&q) // a receiver logs the frame it decoded
 			q.MACPayload.(*lorawan.MACPayload).FHDR.FCnt = fcnt
 			p = &q
 		}
@@ -366,6 +367,7 @@ func runC02(r *engine.Run) {
 			c.Fail("E/decode-error", err.Error(), nil)
 			return
 		}
+		observe(&p) // a receiver logs the frame it decoded
 		g := f
 		g.FOpts = fillBytes(ch[1], 0x5C)
 		var newFOpts []lorawan.Payload
@@ -406,6 +408,7 @@ func runC02(r *engine.Run) {
 			c.Fail("E/decode-error", err.Error(), nil)
 			return
 		}
+		observe(&back) // a receiver logs the frame it decoded
 		back.MACPayload.(*lorawan.MACPayload).FHDR.FCnt = g.FCnt
 		if ok, err := libValidateMIC(&back, uplink, m); err != nil || !ok {
 			c.Fail("E/validate-rejects-own-mic", fmt.Sprintf("frame decoded with %d FOpts bytes, then given %d: after encoding and decoding Validate=%v err=%v", ch[0], ch[1], ok, err), nil)
@@ -442,11 +445,13 @@ func runC02(r *engine.Run) {
 			c.Fail("kept-frame/decode", err.Error(), nil)
 			return
 		}
+		observe(&phy) // a receiver logs the frame it decoded
 		kept := phy
 		if err := phy.UnmarshalBinary(wb); err != nil {
 			c.Fail("kept-frame/decode", err.Error(), nil)
 			return
 		}
+		observe(&phy) // a receiver logs the frame it decoded
 		c.NonTrivial()
 		if [4]byte(kept.MIC) != micA {
 			c.Outcome("kept-frame/mic-field-differs(see C02 set part)")
@@ -488,6 +493,7 @@ func runC02(r *engine.Run) {
 			c.Fail("witness/decode-error", err.Error(), nil)
 			return
 		}
+		observe(&q) // a receiver logs the frame it decoded
 		q.MACPayload.(*lorawan.MACPayload).FHDR.FCnt = w.fcnt
 		if ok, err := libValidateMIC(&q, f.Uplink(), m); err != nil || !ok {
 			c.Fail("witness/validate-rejects-spec-mic", fmt.Sprintf("frame %x received from the wire (its correct MIC is %x): Validate=%v err=%v", wire, w.mic[:], ok, err), nil)
@@ -618,6 +624,7 @@ func runC02(r *engine.Run) {
 				c.Outcome("C/frame/tampered-frame-undecodable")
 				continue
 			}
+			observe(&q) // a receiver logs the frame it decoded
 			mp, ok := q.MACPayload.(*lorawan.MACPayload)
 			if !ok {
 				c.Outcome("C/frame/tampered-into-non-data-frame")
